@@ -228,6 +228,15 @@ def run(tier):
                             break
                     if bad:
                         break
+                if not bad and atm in (0, 1):
+                    # the atmosphere blocks too: their column part is the atmosphere column (type 0) or the column (type 1)
+                    acols = [geo.atmosphere_column_name] if atm == 0 else [c_.name for c_ in cols[:20]]
+                    for cn in acols:
+                        b = geo.block_name(geo.layerlist[0].name, cn)
+                        if geo.column_name(b) != cn or geo.layer_name(b) != geo.layerlist[0].name or len(b) != 5 \
+                                or len(cn) != geo.colname_length or b not in geo.block_name_list[:geo.num_atmosphere_blocks]:
+                            bad = (geo.layerlist[0].name, cn, b)
+                            break
                 if bad:
                     det["layer_column_block"] = bad
                     rep.violation("block_name:conv%d:parts" % conv, "P_parts_invert_block_name", det)
@@ -295,6 +304,25 @@ def run(tier):
                             or len(set(names)) != len(names) or len(names) != ncols * (nlay + 1):
                         det.update(columns_built=geo.num_columns, nodes_built=geo.num_nodes, blocks=len(set(names)))
                         rep.violation("rectangular:chars:duplicate-names", "P_generated_names_distinct", det)
+    # names without leading blanks (spaces=False): padded with the alphabet's own first character, whatever that is
+    for chars in ("qwertyuiopasdfghjklzxcvbnm", "zyxwvutsrqponmlkjihgfedcba", "bacdefgh"):
+        for conv, ncols, nlay in ((0, 300, 2), (3, 150, 30), (0, 40, 3)):
+            det = {"convention": conv, "columns": ncols, "layers": nlay, "chars": chars, "spaces": False}
+            rep.case(("geo-nospace", conv, ncols, nlay, chars))
+            try:
+                with core.watchdog(300), core.quiet():
+                    geo = m.mulgrid().rectangular([10.0] * ncols, [10.0], [1.0] * nlay, convention=conv, atmos_type=1, chars=chars, spaces=False)
+            except Err:
+                continue            # capacity without blanks is not claimed here: only that what is built has distinct names
+            except Exception as ex:
+                det["error"] = repr(ex)
+                rep.violation("rectangular:nospace:raises-other", "P_naming_error_explicit", det)
+                continue
+            names = geo.block_name_list
+            if geo.num_columns != ncols or geo.num_nodes != 2 * (ncols + 1) or geo.num_layers != nlay + 1 \
+                    or len(set(names)) != len(names) or len(names) != ncols * (nlay + 1):
+                det.update(columns_built=geo.num_columns, nodes_built=geo.num_nodes, blocks=len(set(names)))
+                rep.violation("rectangular:nospace:duplicate-names", "P_generated_names_distinct", det)
     rep.rule = ("part 2: all 3125 five-character class strings, concretised; part 1: every number TLC enumerates for each "
                 "(alphabet, spaces, length) the conventions use, plus a window around every capacity limit, through "
                 "column/node/layer_name_from_number with left/right justification; rectangular geometries at capacity +-1")
